@@ -1,3 +1,5 @@
 import ArroyProofs.AuditCmd
 import ArroyProofs.Properties.C04
+import ArroyProofs.Properties.C04Build
+import ArroyProofs.Properties.Unconditional
 #audit Arroy.C04
